@@ -177,16 +177,26 @@ def tier_a(impl, spec, scripts, aspects):
                 depth += 1
             elif opname == 'unlock' and depth > 0:
                 depth -= 1
+            before = prev
             prev = b
-            if 'harmless' in aspects and s is not None and opname in GUARDED_QUERIES and len(opt) > 1:
+            if 'harmless' in aspects and s is not None and opname in GUARDED_QUERIES + ('markdirty',) and len(opt) > 1:
                 tok = opt[1]
                 sv = (s['tags'].get('V') or ['V'])[0].split()
                 sv = sv[1] if len(sv) > 1 else ''
                 dead = (not tok.startswith('#')) or int(tok[1:]) >= len(sv) or sv[int(tok[1:])] == '0'
                 r = (b['tags'].get('R') or ['R'])[0].split()[1:]
-                if dead and r and r[0] not in ('null', '0'):
+                if dead and r and r[0] not in ('null', '0') and opname != 'markdirty':
                     fail = dict(aspect='harmless', what='%s through a dead/null/foreign handle returned %s' % (opname, ' '.join(r)))
                     break
+                # ... and changed nothing: every dumped line (entities, archetypes, version stamps, buffers, marks) is as before the call
+                if dead and before is not None and not before['crash']:
+                    for tg in ('V', 'H', 'A', 'T', 'S', 'F', 'L', 'M', 'K', 'W'):
+                        if before['tags'].get(tg, []) != b['tags'].get(tg, []):
+                            df = [x for x in b['tags'].get(tg, []) if x not in before['tags'].get(tg, [])][:1] or b['tags'].get(tg, [])[:1]
+                            fail = dict(aspect='harmless', what='%s through a dead/null/foreign handle changed the state: %s line now %r' % (opname, tg, (df or ['(removed)'])[0]))
+                            break
+                    if fail:
+                        break
             if s is None or not s['tags'].get('V'):
                 continue
             if 'valid' in aspects and b['tags'].get('V'):
